@@ -197,6 +197,22 @@ func warm(x tensor.Tensor) {
 	}
 	if len(s) >= 2 {
 		_, _ = x.Transpose()
+		// products with lower-rank partners whose shapes fit the trailing dims
+		n := s[len(s)-1]
+		if w, err := New([]int{n, 1}, make([]float64, n), false); err == nil {
+			_, _ = x.MatMul(w)
+		}
+		if v, err := New([]int{n}, make([]float64, n), false); err == nil {
+			_, _ = x.Dot(v)
+			_, _ = x.Mul(v)
+		}
+		if w, err := New([]int{n, n}, make([]float64, n*n), false); err == nil {
+			_, _ = x.MatMul(w)
+		}
+	}
+	_, _ = x.Patch(nil, x)
+	if len(s) >= 1 {
+		_, _ = tensor.Concat([]tensor.Tensor{x, x}, 0)
 	}
 	idx := make([]int, len(s))
 	_, _ = x.At(idx...)
